@@ -82,7 +82,7 @@ func normaliseValidity(s string) string {
 }
 
 func runC19(res *Result, d *Driver, g *Rng, tier string) {
-	res.Rule = "durations from -1 s to 100 years: every unit boundary ±1 ns/±1 s (59 s/60 s, 59 m 59 s/1 h, 23 h 59 m 59 s/24 h, 30 d 23 h 59 m 59 s/31 d, 32 d, 365 d, 100 y), sub-second fractions, random durations, unparsable texts; both forms; 'now' at random instants of 2000..2099 incl. leap days, year ends and sub-second parts; non-trivial = distinct (now, duration, form)"
+	res.Rule = "durations from -1 s to 100 years: every unit boundary ±1 ns/±1 s (59 s/60 s, 59 m 59 s/1 h, 23 h 59 m 59 s/24 h, 30 d 23 h 59 m 59 s/31 d, 32 d, 365 d, 100 y), sub-second fractions, random durations, unparsable texts; both forms; relative form on every whole minute below 31 days (thorough: every whole second); 'now' at random instants of 2000..2099 incl. leap days, year ends and sub-second parts; non-trivial = distinct (now, duration, form)"
 	thorough := tier == "thorough"
 	var ops, goOut []string
 	day := 24 * time.Hour
@@ -164,6 +164,37 @@ func runC19(res *Result, d *Driver, g *Rng, tier string) {
 				}
 			}
 		}
+	}
+	// the dense grid of the relative form: every whole minute below 31 days (and, thorough, every whole
+	// second) — the field arithmetic goes through float64 hours/minutes/seconds, which is exact only as
+	// long as each field is computed from its own unit
+	step := int64(60)
+	if thorough {
+		step = 1
+	}
+	now0 := nows[0]
+	for secs := int64(0); secs < 31*86400+120; secs += step {
+		v := (time.Duration(secs) * time.Second).String()
+		out, sgot := goValidity(now0, v, true)
+		res.Eval("grid/"+v, true)
+		want, wantOut := fmt.Sprintf("0000%02d%02d%02d%02d000R", secs/86400, secs/3600%24, secs/60%60, secs%60), "ok"
+		if secs == 0 {
+			want = ""
+		}
+		if secs >= 31*86400 {
+			want, wantOut = "", "err"
+		}
+		if (secs/step)%97 == 0 {
+			ops, goOut = append(ops, validityOp(now0, v, true)), append(goOut, normaliseValidity(out))
+		}
+		if (wantOut == "err" && out == "err") || (wantOut == "ok" && out == "ok "+want && sgot == want) {
+			continue
+		}
+		cls := "C19.relative-wrong"
+		if wantOut == "err" {
+			cls = "C19.relative-silently-shortened"
+		}
+		res.Violate(cls, fmt.Sprintf("relative form of %s is %q (%s), expected %q (%s)", v, sgot, out, want, wantOut), []string{validityOp(now0, v, true)})
 	}
 	res.Sample(ops[0] + "  =>  " + goOut[0])
 	res.Sample(ops[len(ops)/2] + "  =>  " + goOut[len(ops)/2])
